@@ -159,6 +159,7 @@ type c06Worlds struct {
 	in   *World
 	sess *bmc.V2Session
 	n    int
+	seed uint64
 }
 
 func newC06Worlds() *c06Worlds {
@@ -245,6 +246,14 @@ func c06One(ws *c06Worlds, c c06Case) (string, string) {
 	if c.Cmd == "HandshakeName" {
 		return c06HandshakeName(c)
 	}
+	if c.Cmd == "HandshakeRspPriv" {
+		return c06HandshakeRspPriv(c)
+	}
+	if strings.HasPrefix(c.Cmd, "Wrapper/") {
+		return c06Wrapper(ws, c)
+	}
+	ws.seed++
+	env.InstallRand(1<<32 + ws.seed)
 	for _, mode := range []string{"sessionless", "insession", "insession-retried"} {
 		w, conn := ws.less, bmc.Connection(ws.less.Conn)
 		if mode != "sessionless" {
@@ -414,6 +423,40 @@ func runC06(r *rep.R) {
 			}
 		}
 	}
+	// requests built by the high-level wrappers
+	for v := int64(0); v < 256; v++ {
+		do("Wrapper/GetSensorReading", v)
+		do("Wrapper/dcmi.GetDCMISensorInfo", 0x01, v, 0, 1)
+		do("Wrapper/dcmi.GetDCMISensorInfo", 0x01, 0x37, v, 9)
+		do("Wrapper/dcmi.GetDCMISensorInfo", v, 0x40, 0, v)
+		if v < 16 {
+			do("Wrapper/ChassisControl", v)
+			do("Wrapper/SetSessionPrivilegeLevel", v)
+			do("Wrapper/GetChannelAuthenticationCapabilities", v%2, v, 15-v)
+		}
+		if v < 4 {
+			do("Wrapper/dcmi.GetPowerReading", v)
+		}
+		do("Wrapper/GetSessionInfo", 0xFE, v, 0)
+		do("Wrapper/GetSessionInfo", v, 0, 0)
+	}
+	for _, id := range u32 {
+		do("Wrapper/GetSessionInfo", 0xFF, 0, id)
+	}
+	for lunv := int64(0); lunv < 4; lunv++ {
+		for lin := int64(0); lin < 12; lin++ {
+			for _, num := range []int64{0, 1, 0x37, 0x80, 0xFF} {
+				do("Wrapper/SensorReader", lunv, num, lin)
+			}
+		}
+	}
+	for req := int64(0); req < 6; req++ {
+		for ans := int64(0); ans < 16; ans++ {
+			for lk := int64(0); lk < 2; lk++ {
+				do("HandshakeRspPriv", req, ans, lk)
+			}
+		}
+	}
 	// user names as they reach the wire through NewV2Session
 	for i := range c06HSNames() {
 		for lk := int64(0); lk < 2; lk++ {
@@ -493,6 +536,147 @@ func c06Handshake(c c06Case) (string, string) {
 		}
 	}
 	return "", ""
+}
+
+// c06Wrapper: requests built by the high-level wrappers (the methods of
+// V2Session, the DCMI session commander, the sensor readers) from the caller's
+// arguments, as they reach the BMC.
+func c06Wrapper(ws *c06Worlds, c c06Case) (string, string) {
+	v := c.V
+	w, sess := ws.in, ws.sess
+	// other cases build worlds of their own, which restarts the process-wide
+	// random stream: give this long-lived session a stream position of its own
+	ws.seed++
+	env.InstallRand(1<<32 + ws.seed)
+	var netfn, cmdno, lun byte
+	var data []byte
+	var call func()
+	switch c.Cmd {
+	case "Wrapper/ChassisControl":
+		netfn, cmdno, data = 0x00, 0x02, []byte{byte(v[0])}
+		call = func() { sess.ChassisControl(w.Ctx, ipmi.ChassisControl(v[0])) }
+	case "Wrapper/GetSensorReading":
+		netfn, cmdno, data = 0x04, 0x2d, []byte{byte(v[0])}
+		call = func() { sess.GetSensorReading(w.Ctx, uint8(v[0])) }
+	case "Wrapper/SetSessionPrivilegeLevel":
+		netfn, cmdno, data = 0x06, 0x3b, []byte{byte(v[0])}
+		call = func() { sess.SetSessionPrivilegeLevel(w.Ctx, ipmi.PrivilegeLevel(v[0])) }
+	case "Wrapper/GetSessionInfo":
+		req := &ipmi.GetSessionInfoReq{Index: ipmi.SessionIndex(v[0]), Handle: ipmi.SessionHandle(v[1]), ID: uint32(v[2])}
+		netfn, cmdno, data = 0x06, 0x3d, []byte{byte(v[0])}
+		switch v[0] {
+		case 0xFE:
+			data = append(data, byte(v[1]))
+		case 0xFF:
+			data = append(data, le32b(uint32(v[2]))...)
+		}
+		call = func() { sess.GetSessionInfo(w.Ctx, req) }
+	case "Wrapper/GetChannelAuthenticationCapabilities":
+		req := &ipmi.GetChannelAuthenticationCapabilitiesReq{ExtendedData: v[0] != 0, Channel: ipmi.Channel(v[1]), MaxPrivilegeLevel: ipmi.PrivilegeLevel(v[2])}
+		netfn, cmdno, data = 0x06, 0x38, []byte{byte(v[0])<<7 | byte(v[1]), byte(v[2])}
+		call = func() { sess.GetChannelAuthenticationCapabilities(w.Ctx, req) }
+	case "Wrapper/dcmi.GetDCMISensorInfo":
+		req := &dcmi.GetDCMISensorInfoReq{Type: ipmi.SensorType(v[0]), Entity: ipmi.EntityID(v[1]), Instance: ipmi.EntityInstance(v[2]), InstanceStart: uint8(v[3])}
+		start := byte(v[3])
+		if v[2] != 0 {
+			start = 0
+		}
+		netfn, cmdno, data = 0x2c, 0x07, []byte{0xDC, byte(v[0]), byte(v[1]), byte(v[2]), start}
+		call = func() { dcmi.NewSessionCommander(sess).GetDCMISensorInfo(w.Ctx, req) }
+	case "Wrapper/dcmi.GetPowerReading":
+		req := &dcmi.GetPowerReadingReq{Mode: dcmi.SystemPowerStatisticsMode(v[0])}
+		netfn, cmdno = 0x2c, 0x02
+		call = func() { dcmi.NewSessionCommander(sess).GetPowerReading(w.Ctx, req) }
+	case "Wrapper/SensorReader":
+		// v = [owner LUN, sensor number, linearisation]
+		rec := c15Record(c15Case{Fmt: 0, Lin: int(v[2]), M: 1})
+		rec[1], rec[2] = byte(v[0]), byte(v[1])
+		var fsr ipmi.FullSensorRecord
+		if err := fsr.DecodeFromBytes(rec, gopacket.NilDecodeFeedback); err != nil {
+			return "C06/" + c.Cmd + "/harness", err.Error()
+		}
+		reader, err := bmc.NewSensorReader(&fsr)
+		if err != nil {
+			return "C06/" + c.Cmd + "/harness", err.Error()
+		}
+		netfn, cmdno, lun, data = 0x04, 0x2d, byte(v[0]), []byte{byte(v[1])}
+		call = func() { reader.Read(w.Ctx, sess) }
+	default:
+		return "C06/harness", "unknown wrapper " + c.Cmd
+	}
+	before := len(w.T.Log)
+	w.T.BeginOp()
+	if p := guard(call); p != "" {
+		return "C06/" + c.Cmd + "/panic", p
+	}
+	sent := w.T.Log[before:]
+	ws.n++
+	if ws.n%2000 == 0 {
+		defer func() { w.T.Log, w.BMC.Log = nil, nil }()
+	}
+	if c.Cmd == "Wrapper/SetSessionPrivilegeLevel" && v[0] == 1 {
+		if len(sent) != 0 {
+			return "C06/" + c.Cmd + "/invalid-request-not-refused", fmt.Sprintf("%d datagrams sent for privilege level callback", len(sent))
+		}
+		return "", ""
+	}
+	if len(sent) != 1 {
+		return "C06/" + c.Cmd + "/transmissions", fmt.Sprintf("%s %v: %d datagrams, want 1", c.Cmd, v, len(sent))
+	}
+	rx := sent[0].Rx
+	if rx == nil || rx.Msg == nil {
+		return "C06/" + c.Cmd + "/no-message", fmt.Sprintf("%s %v: no IPMI message in % x", c.Cmd, v, sent[0].Req)
+	}
+	if len(rx.Problems) > 0 {
+		return "C06/" + c.Cmd + "/malformed/" + problemClass(rx.Problems[0]), fmt.Sprintf("%s %v: %s", c.Cmd, v, strings.Join(rx.Problems, "; "))
+	}
+	m := rx.Msg
+	if c.Cmd == "Wrapper/dcmi.GetPowerReading" {
+		// body layout checked at command level; here: the mode is the caller's
+		if m.NetFn != netfn || m.Cmd != cmdno || len(m.Data) < 2 || m.Data[0] != 0xDC || m.Data[1] != byte(v[0]) {
+			return "C06/" + c.Cmd + "/encoding", fmt.Sprintf("mode %d: BMC received NetFn %#02x cmd %#02x data % x", v[0], m.NetFn, m.Cmd, m.Data)
+		}
+		return "", ""
+	}
+	if m.NetFn != netfn || m.Cmd != cmdno || m.LUN1 != lun || !bytes.Equal(m.Data, data) {
+		return "C06/" + c.Cmd + "/encoding", fmt.Sprintf("%s arguments %v: BMC received NetFn %#02x cmd %#02x LUN %d data % x; the caller's request is NetFn %#02x cmd %#02x LUN %d data % x", c.Cmd, v, m.NetFn, m.Cmd, m.LUN1, m.Data, netfn, cmdno, lun, data)
+	}
+	return "", ""
+}
+
+// c06HandshakeRspPriv: the BMC's Open Session Response carries a maximum
+// privilege level other than the requested one (13.18 allows it); RAKP Message
+// 1 must still carry the caller's requested level and lookup mode. v = [requested, answered, lookup].
+func c06HandshakeRspPriv(c c06Case) (string, string) {
+	cfg := histConfig(ref.Suite{Auth: 1, Integ: 1, Conf: 1})
+	ans := byte(c.V[1])
+	cfg.OpenRspPriv = &ans
+	w := newWorld(cfg, nil, nil)
+	var err error
+	p := guard(func() {
+		var s *bmc.V2Session
+		s, err = w.Conn.NewV2Session(w.Ctx, &bmc.V2SessionOpts{SessionOpts: bmc.SessionOpts{Username: "u", Password: cfg.Password, MaxPrivilegeLevel: ipmi.PrivilegeLevel(c.V[0])}, PrivilegeLevelLookup: c.V[2] != 0, CipherSuites: []ipmi.CipherSuite{ipmi.CipherSuite3}})
+		if err == nil {
+			s.Close(w.Ctx)
+		}
+	})
+	if p != "" {
+		return "C06/HandshakeRspPriv/panic", p
+	}
+	for _, rx := range w.BMC.Log {
+		if rx.Name != "RAKP Message 1" {
+			continue
+		}
+		want := byte(c.V[0])
+		if c.V[2] == 0 {
+			want |= 0x10
+		}
+		if got := byte(rx.Fields["role"]); got != want {
+			return "C06/HandshakeRspPriv/role", fmt.Sprintf("requested privilege %d (lookup %v), Open Session Response said %d: RAKP Message 1 carries role byte %#02x, the caller's is %#02x", c.V[0], c.V[2] != 0, ans, got, want)
+		}
+		return "", ""
+	}
+	return "C06/HandshakeRspPriv/no-rakp1", fmt.Sprintf("no RAKP Message 1 reached the BMC (err %v)", err)
 }
 
 // c06HSNames: user names given to NewV2Session: white space and control
